@@ -811,6 +811,7 @@ def replay(ctx, rep):
         eval_call(ctx, D, 0, c["request_b64"], c["settings"], call, out, checks, pending, generated)
         failing, errors, _ = coq.eval_checks("c18replaycall", IMPORTS, library_defs(0, [c["method"]], c["settings"]), checks)
         ctx.oblige("replay: requests at the server = Model.exec", not failing and not errors, "; ".join(failing + errors)[:600])
+        pending = [(p[0] or rep.get("signature"), p[1], p[2]) for p in pending]
         report(ctx, pending)
         for p in pending:
             print("replay:", p[1])
